@@ -6,7 +6,7 @@ EXTENDS SqlShapeDefs, Json
 VARIABLE s
 
 GenInit == /\ s \in Shapes
-           /\ PrintT(ToJson([shape |-> s, sql |-> Sql(s), required |-> Required(s),
+           /\ PrintT(ToJson([shape |-> s, sql |-> Sql(s), sqls |-> SqlSeq(s), required |-> Required(s),
                              ctes |-> CteNames(s.plants), depth |-> Len(s.plants), pos |-> PosKey(s)]))
 GenNext == UNCHANGED s
 GenSpec == GenInit /\ [][GenNext]_s
